@@ -15,6 +15,7 @@ mod c15;
 mod c16;
 mod c17;
 mod c18;
+mod c19;
 mod reflex;
 mod sq;
 mod util;
@@ -225,6 +226,7 @@ fn main() {
         "C16" => { c16::run(&mut ctx); true }
         "C17" => { c17::run(&mut ctx); true }
         "C18" => { c18::run(&mut ctx); true }
+        "C19" => { c19::run(&mut ctx); true }
         _ => false,
     };
     if !ok {
